@@ -187,7 +187,12 @@ func segmentFMP4ReadDurationFromParts(
 	r io.ReadSeeker,
 	init *fmp4.Init,
 ) (time.Duration, error) {
-	_, err := r.Seek(0, io.SeekStart)
+	fileSize, err := r.Seek(0, io.SeekEnd)
+	if err != nil {
+		return 0, err
+	}
+
+	_, err = r.Seek(0, io.SeekStart)
 	if err != nil {
 		return 0, err
 	}
@@ -334,6 +339,10 @@ outer:
 
 		tfhdSize := uint32(buf[0])<<24 | uint32(buf[1])<<16 | uint32(buf[2])<<8 | uint32(buf[3])
 
+		if tfhdSize < 8 || int64(tfhdSize) > fileSize {
+			return 0, fmt.Errorf("invalid tfhd box size")
+		}
+
 		buf2 := make([]byte, tfhdSize-8)
 
 		_, err = io.ReadFull(r, buf2)
@@ -365,6 +374,10 @@ outer:
 
 		tfdtSize := uint32(buf[0])<<24 | uint32(buf[1])<<16 | uint32(buf[2])<<8 | uint32(buf[3])
 
+		if tfdtSize < 8 || int64(tfdtSize) > fileSize {
+			return 0, fmt.Errorf("invalid tfdt box size")
+		}
+
 		buf2 = make([]byte, tfdtSize-8)
 
 		_, err = io.ReadFull(r, buf2)
@@ -390,6 +403,10 @@ outer:
 		}
 
 		trunSize := uint32(buf[0])<<24 | uint32(buf[1])<<16 | uint32(buf[2])<<8 | uint32(buf[3])
+
+		if trunSize < 8 || int64(trunSize) > fileSize {
+			return 0, fmt.Errorf("invalid trun box size")
+		}
 
 		buf2 = make([]byte, trunSize-8)
 
